@@ -23,15 +23,15 @@ TStep == /\ E.a # "reset" /\ l' = l + 1
          /\ LoggedPost(E.post) /\ last' = Lbl(E)
          /\ GhostNext
          /\ (IF SpecAct(E) THEN TRUE ELSE Report_("DRIFT", E.a))
-         /\ Chk("C18_Step", C18_Step) /\ Chk("C18_BlockSilent", C18_BlockSilent)
+         /\ Chk("C18_Step", C18_Step) /\ Chk("C18_BlockSilent", C18_BlockSilent) /\ Chk("C18_BlockRecorded", C18_BlockRecorded)
          /\ Chk("C18_KF_BlockEntry", C18_KF_BlockEntry => C18_KF_BlockEntry')
          /\ Chk("C18_NoPhantom", C18_NoPhantom => C18_NoPhantom')
          /\ Chk("C18_KF_Overwrite", C18_KF_Overwrite => C18_KF_Overwrite')
          /\ Chk("C18_NoLoss", C18_NoLoss => C18_NoLoss')
          /\ NT("C18", NT18)
 TReset == /\ E.a = "reset" /\ l' = l + 1 /\ LoggedPost(E.post) /\ last' = [a |-> "reset", ok |-> TRUE]
-          /\ sent' = {} /\ deleted' = {}
-TInit == /\ l = 1 /\ inbox = <<>> /\ blocks = {} /\ names = <<>> /\ time = 0 /\ sent = {} /\ deleted = {}
+          /\ sent' = {} /\ deleted' = {} /\ gblocks' = {}
+TInit == /\ l = 1 /\ inbox = <<>> /\ blocks = {} /\ names = <<>> /\ time = 0 /\ sent = {} /\ deleted = {} /\ gblocks = {}
          /\ last = [a |-> "init", ok |-> TRUE]
 TNext == l <= Len(Trace) /\ (TStep \/ TReset)
 TSpec == TInit /\ [][TNext]_tvars
